@@ -268,6 +268,18 @@ DEF_VIOLATIONS = [
                                            {"kind": "record", "name": "ZzUse", "tparams": [], "fields": [("x", ("vec", ("named", "ZzG", []), None))]}]),
     ("map-key-through-generic-argument", lambda: [{"kind": "alias", "name": "ZzKeyed", "tparams": ["T"], "type": ("map", ("tparam", "T"), P("int32"))},
                                                   {"kind": "record", "name": "ZzUse", "tparams": [], "fields": [("x", ("named", "ZzKeyed", [("vec", P("string"), None)]))]}]),
+    # rules that are only broken once type arguments are substituted; a valid use of the same generic comes first, and one of them
+    # is spelled exactly like a valid reference elsewhere (same simple name in the imported package)
+    ("union-duplicate-after-substitution", lambda: [{"kind": "alias", "name": "ZzChoice", "tparams": ["A", "B"], "type": ("union", False, [(None, ("tparam", "A")), (None, ("tparam", "B")), (None, P("string"))])},
+                                                   {"kind": "record", "name": "ZzUseOk", "tparams": [], "fields": [("x", ("named", "ZzChoice", [P("int32"), P("float32")]))]},
+                                                   {"kind": "record", "name": "ZzUse", "tparams": [], "fields": [("x", ("named", "ZzChoice", [P("int32"), P("string")]))]}]),
+    ("union-duplicate-after-nested-substitution", lambda: [{"kind": "record", "name": "ZzBox", "tparams": ["T"], "fields": [("v", ("tparam", "T"))]},
+                                                          {"kind": "alias", "name": "ZzPair", "tparams": ["A", "B"], "type": ("union", False, [(None, ("tparam", "A")), (None, ("tparam", "B"))])},
+                                                          {"kind": "record", "name": "ZzWrap", "tparams": ["T"], "fields": [("p", ("named", "ZzPair", [("named", "ZzBox", [("tparam", "T")]), ("named", "ZzBox", [P("int32")])]))]},
+                                                          {"kind": "alias", "name": "ZzUseOk", "tparams": [], "type": ("named", "ZzWrap", [P("float32")])},
+                                                          {"kind": "alias", "name": "ZzUse", "tparams": [], "type": ("named", "ZzWrap", [P("int32")])}]),
+    ("union-duplicate-after-substitution-same-name-as-imported-generic", lambda: [{"kind": "alias", "name": "ZzImpSame", "tparams": ["A", "B"], "type": ("union", False, [(None, ("tparam", "A")), (None, ("tparam", "B")), (None, P("string"))])},
+                                                                                 {"kind": "record", "name": "ZzUse", "tparams": [], "fields": [("x", ("named", "ZzImpSame", [P("int32"), P("string")]))]}]),
     ("enum-duplicate-symbol", lambda: [{"kind": "enum", "name": "ZzE", "flags": False, "base": None, "auto": False, "values": [("a", 0), ("a", 1)]}]),
     ("enum-duplicate-value", lambda: [{"kind": "enum", "name": "ZzE", "flags": False, "base": None, "auto": False, "values": [("a", 1), ("b", 1)]}]),
     ("enum-value-out-of-range", lambda: [{"kind": "enum", "name": "ZzE", "flags": False, "base": "uint8", "auto": False, "values": [("a", 0), ("b", 256)]}]),
@@ -288,6 +300,10 @@ def _def_case(report, ybin, sc, seed, b, pkg, dv, placement, rr):
     # generic helpers in the imported package for the cycles that run through it
     imp.defs = imp.defs + [{"kind": "record", "name": "ZzImpBox", "tparams": ["T"], "fields": [("v", ("tparam", "T"))]},
                            {"kind": "alias", "name": "ZzImpWrap", "tparams": ["T"], "type": ("vec", ("tparam", "T"), None)}]
+    if rule.endswith("same-name-as-imported-generic") and placement != "import":
+        # the imported package has a generic of the same simple name for which the same reference is valid
+        imp.defs = imp.defs + [{"kind": "alias", "name": "ZzImpSame", "tparams": ["A", "B"], "type": ("union", False, [(None, ("tparam", "A")), (None, ("tparam", "B"))])},
+                               {"kind": "record", "name": "ZzImpUsesSame", "tparams": [], "fields": [("x", ("named", "ZzImpSame", [P("int32"), P("string")]))]}]
     x = mk()
     if isinstance(x, str):
         if placement == "import" and x.startswith("through-imported"):
